@@ -430,9 +430,15 @@ def run_harness(fn, name=None, cfg=None, solver_timeout_ms=10000, max_paths=2000
         except PathKilled:
             res.killed += 1
         except PyRaise as pr:
+            if _path_infeasible(ctx):
+                res.killed += 1
+                continue
             res.paths += 1
             res.errors.append("harness raised %s %r (trail %s)" % (getattr(pr.exc.cls, "__name__", "?"), pr.exc.attrs.get("args"), ctx.trail))
         except Unsupported as u:
+            if _path_infeasible(ctx):
+                res.killed += 1
+                continue
             res.paths += 1
             msg = str(u)
             if msg not in res.unsupported:
@@ -448,6 +454,16 @@ def run_harness(fn, name=None, cfg=None, solver_timeout_ms=10000, max_paths=2000
     res.stats = dict(ctx.stats)
     res.wall_s = time.time() - t00
     return res
+
+
+def _path_infeasible(ctx):
+    """A path the quick feasibility probes let through (unknown = feasible) may be contradictory; before an error on it
+    is reported, its path condition gets a real solver budget.  unsat => no execution follows it."""
+    try:
+        ctx.solver.set("timeout", 3000)
+        return ctx.solver.check() == z3.unsat
+    except Exception:
+        return False
 
 
 def replay_native(fn, inputs):
